@@ -54,7 +54,11 @@ def _gen_case(rnd, i, thorough):
             case["by_cand"][cs[0]] = max(1, case["by_cand"][cs[0]])  # N from 1 upward
         return case
     nb = 2 if model in ("AlternatingCrossover", "CambridgeSampler") else (rnd.choice([1, 2]) if model == "slate_BradleyTerry" else None)
-    p = bp.gen_params(rnd, nblocs=nb, max_slate=3 if model != "name_BradleyTerry" else 2)
+    big = model in ("name_PlackettLuce", "short_name_PlackettLuce", "name_Cumulative", "slate_PlackettLuce", "AlternatingCrossover") \
+        and rnd.random() < 0.05
+    p = bp.gen_params(rnd, nblocs=nb, max_slate=(8 if big else 3) if model != "name_BradleyTerry" else 2)
+    if big or rnd.random() < 0.03:
+        case["N"] = rnd.choice([1000, 2003, 5000])  # beyond hand size: slates of up to 8 candidates, thousands of voters
     case["params"] = p
     n = len(bp.all_cands(p))
     if model == "short_name_PlackettLuce":
